@@ -20,6 +20,9 @@ def run(tier):
         if k % 3 == 0:
             j['prog'].flags['ns'] = 'ns1'
             j['prog'].flags['ns_decoy'] = (k % 2 == 0)
+        if k % 3 == 1 and j['prog'].subs:
+            # the whole program is one workbook (every third one with a dotted name); same-named standalone decoys exist
+            j['prog'].flags['wb'] = 'team.tools' if k % 2 else 'wbk'
         if k % 6 == 1:
             j['ops'] = [dict(at=rnd.randint(3, 25), op='stop', state='CANCELLED')]
         if k % 6 == 4:
